@@ -14,6 +14,10 @@ import (
 func VerifH10c() {
 	L := 4 + vChoose(vParam("LVAR", 3))
 	before := nondetBool()
+	// DISCARD=1: the oversized message may also arrive while the session is
+	// discarding until Sync (after a Bind to an unknown statement); it is still
+	// skipped in full, nothing of its body is taken for a message
+	discarding := vParam("DISCARD", 0) > 0 && nondetBool()
 	typ := nondetByte()
 	over := 1 + vChoose(vParam("OVER", 3))
 	big := nondetBytes(L + over)
@@ -21,31 +25,50 @@ func VerifH10c() {
 	if before {
 		input = append(input, vMsgBytes('Q', vCStr([]byte("a")))...)
 	}
+	if discarding {
+		input = append(input, vMsgBytes('D', vCat([]byte{'S'}, vCStr(nil)))...) // unknown statement: error, discard until Sync
+	}
 	input = append(input, vMsgBytes(typ, big)...)
+	if discarding {
+		input = append(input, vMsgBytes('S', nil)...)
+	}
 	input = append(input, vMsgBytes('Q', vCStr([]byte("b")))...)
-	w := vNewWorld(input, L)
+	w := vNewWorldCfg(input, L)
 	w.parseMenu = -1
 	w.execMenu = 1
 	if before {
 		got, err := w.step()
 		vAssert("normal-message-before-ok", err == nil && vCount(got, 'Z') == 1)
 	}
+	if discarding {
+		got, err := w.step()
+		vAssert("failing-describe-one-error", err == nil && got == "E")
+	}
 	evBefore := len(w.events)
 	got, err := w.step()
 	vAssert("oversized-keeps-connection", err == nil)
-	vAssert("oversized-one-ErrorResponse", got == "E" || got == "EZ")
 	vAssert("oversized-no-callback", len(w.events) == evBefore)
-	msgs, _ := vFrames(w.conn.out)
-	var e vMsg
-	for _, m := range msgs {
-		if m.typ == 'E' {
-			e = m
+	if discarding {
+		// (whether a skipped oversized message is also reported while discarding
+		// is not settled by C06/C10: at most one ErrorResponse)
+		vAssert("oversized-while-discarding-at-most-one-error", got == "" || got == "E" || got == "EZ")
+		gotS, errS := w.step()
+		vAssert("sync-after-oversized-is-the-next-message", errS == nil && gotS == "Z" && len(w.events) == evBefore)
+		vReach("oversized-while-discarding")
+	} else {
+		vAssert("oversized-one-ErrorResponse", got == "E" || got == "EZ")
+		msgs, _ := vFrames(w.conn.out)
+		var e vMsg
+		for _, m := range msgs {
+			if m.typ == 'E' {
+				e = m
+			}
 		}
+		code, _ := vErrField(e.body, 'C')
+		sev, _ := vErrField(e.body, 'S')
+		vAssert("oversized-class-program-limit-exceeded", string(code) == "54000")
+		vAssert("oversized-non-fatal", string(sev) == "ERROR")
 	}
-	code, _ := vErrField(e.body, 'C')
-	sev, _ := vErrField(e.body, 'S')
-	vAssert("oversized-class-program-limit-exceeded", string(code) == "54000")
-	vAssert("oversized-non-fatal", string(sev) == "ERROR")
 	// the next message is processed normally: the whole oversized body was skipped
 	got2, err2 := w.step()
 	vAssert("next-message-ok", err2 == nil)
@@ -78,7 +101,7 @@ func VerifH10e() {
 	rest := nondetBytes(vChoose(vParam("REST", 6)))
 	w := &vWorld{parseMenu: 2, execMenu: 2}
 	mw := 0
-	srv, err := NewServer(w.parse, MessageBufferSize(L),
+	srv, err := vServerCfg(w.parse, MessageBufferSize(L),
 		SessionMiddleware(func(ctx context.Context) (context.Context, error) { mw++; return ctx, nil }))
 	vAssert("newserver-ok", err == nil)
 	conn := vNewConn(vCat(hdr, rest))
@@ -160,14 +183,18 @@ func VerifH18b() {
 		for i := range skipped {
 			skipped[i] = 'Z'
 		}
+		// ... and a simple Query the parser rejects, followed by ordinary traffic
+		sq := vCat([]byte("R"), nondetBytes(2), []byte("ejected-simple-query"))
+		vAssume(vNoNUL(sq))
 		input = vCat(input,
 			vMsgBytes('P', vCat(vCStr(nil), vCStr(rq), vU16(0))),
 			vMsgBytes('H', nil),
 			vMsgBytes('B', skipped),
 			vMsgBytes('H', nil),
 			vMsgBytes('D', skipped[:9]),
-			vMsgBytes('S', nil))
-		steps += 6
+			vMsgBytes('S', nil),
+			vMsgBytes('Q', vCStr(sq)))
+		steps += 7
 		vReach("rejected-parse-then-skipped-messages")
 	}
 	input = vCat(input,
@@ -206,7 +233,7 @@ func VerifH18b() {
 		want++
 	}
 	if rejected {
-		want++
+		want += 2
 	}
 	vAssert("queries-were-retained", len(keptQueries) == want)
 	vAssert("parameter-was-retained", keptParamCopy != nil && vEqBytes(keptParamCopy, pv))
